@@ -395,7 +395,8 @@ class World:
         if r.get('static'):
             return '/static/f.txt'
         segs = ([r['route']] if r['route'] else []) + list(RES_PATHS[r['res']]) + ([r['vname']] if r['vname'] else [])
-        return '/' + '/'.join(segs)
+        # route-bound URLs end in '/': path + '/' must never match a route (AppendSlashNotFoundViewFactory)
+        return '/' + '/'.join(segs) + ('/' if r['route'] else '')
 
     def run(self, r):
         P = _P
